@@ -193,6 +193,10 @@ impl BatchAppSpec {
         if self.with_summary {
             a.output_plugins.push(OutPlugin::Summary);
         }
+        // the identifier plugin (vertex uuid table) on a share of the plain configurations
+        if self.with_summary && self.astar && matches!(self.kind, 0 | 1 | 6 | 7) {
+            a.output_plugins.insert(0, OutPlugin::Uuid);
+        }
         a.termination = self.iteration_limit.map(|l| json!({"type": "iterations", "limit": l}));
         a
     }
